@@ -4,6 +4,13 @@ from runner import Prop
 from common import hx, unhx, REPO, GOENV
 
 
+HASH_COLLISIONS = [(b"costarring", b"liquid"), (b"declinate", b"macallums"), (b"altarage", b"zinke"),      # FNV-1a/32
+                   (b"amzlgz", b"hyfejdwv"),                                                                   # FNV-1/32
+                   (b"Aa", b"BB"), (b"AaAa", b"BBBB"), (b"AaBB", b"BBAa"),                                     # h*31+c
+                   (b"plumless", b"buckeroo"),                                                                 # CRC-32
+                   (b"lepqa", b"nertok"), (b"rqvqgvsq", b"myfqqa"), (b"eosfn", b"bxgok")]                     # djb2, sdbm, Adler-32
+
+
 class C13(Prop):
     pid = "C13"
     fields = {"opcodes": ["na", "nb", "valid", "hunks", "~all", "~groups"], "diff": ["empty", "valid", "readable", "~report", "~own"]}
@@ -80,6 +87,18 @@ class C13(Prop):
                     else:
                         ctx = self.text(r, r.choice([1, 3, 12]), al)
                         a, b = ctx + pre + x + b"\n" + ctx, ctx + pre + y + b"\n" + ctx
+                if r.chance(1, 10):
+                    # two texts that differ ONLY in lines which collide under a common 32-bit string hash (FNV-1a, FNV-1, Java's 31-hash,
+                    # CRC-32, djb2, sdbm, Adler-32): "marks as equal only identical lines" - a matcher that compares hashed lines
+                    # must still compare the lines
+                    x, y = r.choice(HASH_COLLISIONS)
+                    if r.chance(1, 2):
+                        x, y = y, x
+                    ctx1, ctx2 = self.text(r, r.choice([0, 1, 3, 12, 30]), al), self.text(r, r.choice([0, 1, 2, 15]), al)
+                    a = ctx1 + x + b"\n" + ctx2
+                    b = ctx1 + y + b"\n" + ctx2
+                    if r.chance(1, 3):
+                        b = b + b"one more unrelated change\n"
                 if r.chance(1, 8):
                     # the auto-junk regime of the matcher: the second text has >= 200 lines, mostly unique, and one line occurring
                     # about n/100 + 1 times (the popularity threshold), next to the edits - matches must then be EXTENDED over it
